@@ -84,7 +84,34 @@ def gen():
         raise Fail("client.rs: OVERHEAD is no longer TAG_SIZE + DataHeader::PACKED_SIZE")
     if not re.search(r"const\s+TAG_SIZE\s*:\s*usize\s*=\s*SealKey::<S::CipherSuite>::OVERHEAD", cl):
         raise Fail("client.rs: TAG_SIZE is no longer SealKey::OVERHEAD")
+    # layout of the additional data `AuthData::to_bytes` (afc/keys.rs): version (u32 LE) ‖ label id
+    kb = fn_body(keys, "to_bytes", "crates/aranya-crypto/src/afc/keys.rs", within="AuthData")
+    mv = re.search(r"LittleEndian::write_u32\(\s*&mut\s+b\[(\d+)\.\.(\d+)\]\s*,\s*self\.version\s*\)", kb)
+    ml = re.search(r"b\[(\d+)\.\.\]\s*\.copy_from_slice\(\s*self\.label_id\.as_bytes\(\)\s*\)", kb)
+    if not mv or not ml:
+        raise Fail("afc/keys.rs: AuthData::to_bytes is no longer `write_u32(&mut b[a..b], version); b[c..].copy_from_slice(label)`")
+    ad_voff, ad_vend, ad_loff = int(mv.group(1)), int(mv.group(2)), int(ml.group(1))
+    ma = re.search(r"packed!\s*\{[^{}]*?struct\s+AuthData\s*\{([^}]*)\}", keys, flags=re.S)
+    if not ma:
+        raise Fail("afc/keys.rs: packed! struct AuthData not found")
+    ad_fields = re.findall(r"pub\s+(\w+)\s*:\s*(\w+)", re.sub(r"#\[[^\]]*\]", "", ma.group(1)))
+    if ad_fields != [("version", "u32"), ("label_id", "LabelId")]:
+        raise Fail(f"afc/keys.rs: AuthData fields are {ad_fields}")
+    id_size = 32  # custom_id! ids are 32 bytes (aranya-id `Id { bytes: [u8; 32] }`)
+    idsrc = strip_comments(read("crates/aranya-id/src/id.rs"))
+    if not re.search(r"from_bytes\(bytes:\s*\[u8;\s*32\]\)", idsrc):
+        raise Fail("aranya-id: Id::from_bytes([u8; 32]) not found")
+    ad_size = 4 + id_size
     return f"""namespace AranyaV.Gen.Afc
+
+/-- `AuthData::to_bytes` ({"crates/aranya-crypto/src/afc/keys.rs"}): the version occupies bytes
+`[adVersionOff, adVersionEnd)` (u32 LE), the label id starts at `adLabelOff` and runs to the end of
+the `AuthData::PACKED_SIZE = adSize` buffer -/
+def adVersionOff : Nat := {ad_voff}
+def adVersionEnd : Nat := {ad_vend}
+def adLabelOff : Nat := {ad_loff}
+def adSize : Nat := {ad_size}
+def labelIdSize : Nat := {id_size}
 
 /-- `Header::PACKED_SIZE` ({HDR}) -/
 def headerSize : Nat := {header}
